@@ -679,7 +679,8 @@ class SimplicialComplex(Hypergraph):
 
             if simplex:
                 new_faces = self._subfaces(simplex)
-                self.add_simplices_from(new_faces)
+                # (members, attr) pairs: unambiguous whatever the node labels are
+                self.add_simplices_from((face, {}) for face in new_faces)
 
     def add_weighted_simplices_from(
         self, ebunch_to_add, max_order=None, weight="weight", **attr
